@@ -11,7 +11,8 @@ RULE = ("valid RTMP client sessions from an independent python encoder (simple /
         "createStream, publish / play, metadata, audio, video, set chunk size, ack, user control, aggregate), then: truncation at "
         "every offset, every message type id 0..255 with bodies of length 0..8 (zero and random) in the states fresh / publisher / "
         "subscriber, every chunk fmt x csid form x extreme length and timestamp fields, Set Chunk Size / Window Ack Size / Ack / "
-        "User Control bodies of every short length, AMF0 command bodies mutated with the C18 mutation stream, out-of-order and "
+        "User Control bodies of every short length, short audio / video payloads with the log level at trace, acknowledgement "
+        "counters preset around the 0xf0000000 / 2^32 wraps, AMF0 command bodies mutated with the C18 mutation stream, out-of-order and "
         "repeated commands, aggregates with sub-lengths past the end, handshake digest offsets at their extremes, and pure random "
         "bytes before and after the handshake; a case is non-trivial when it got past the handshake, counted by distinct "
         "(outcome, observer-call kinds, reply length)")
@@ -21,9 +22,12 @@ ASSUMPTIONS = ["64-bit Go int, amd64 float64->int conversion (NaN / out of range
                "replies queued for the asynchronous writer during the callbacks of the very iteration that closes the session may or "
                "may not reach the peer in the real server; both sides leave them out",
                "S1 carries time.Now(): the comparison covers the handshake mode, S0 and all of S2",
-               "not modelled (runtime): memory growth (per-csid buffers grown to the declared message length, up to 16 MiB each for "
-               "up to 65599 chunk stream ids, and up to 4 GiB after a Set Chunk Size of 0xFFFFFFFF met by a shrinking header), "
-               "goroutine scheduling, read / write timeouts, the acknowledgement sequence number wrap at 0xf0000000 (needs 4 GiB of input)"]
+               "memory: the model carries the capacity of every per-chunk-stream message buffer (nazabytes.Buffer.Grow rounding "
+               "included) and both sides print their sum and the number of chunk streams; Go heap / GC behaviour is not modelled, "
+               "the peak RSS of the declared-length cases is a regression guard in the thorough tier",
+               "the acknowledgement sequence wrap at 0xf0000000 and the uint32 wrap of the sequence number are reached by presetting "
+               "recvLastAck / seqNum of a session that has not started (hook VerifC04PresetAck; 0 / 0 in production)",
+               "not modelled (runtime): goroutine scheduling, read / write timeouts"]
 FULL_OUTPUT = True
 TIMEOUT = 2400
 
@@ -201,6 +205,34 @@ def gen_cases(tier, rng):
     c.raw("scs", E.message(2, E.T_SET_CHUNK, 0, b"\xff\xff\xff\xff"))
     c.raw("b", E.chunk_header(0, 6, 0, 100, E.T_AUDIO, 1) + rb(500))
     yield Case(line(c.bytes()), cls="chunk-size")
+    # the chunk body is read in pieces of at most max(Len, initMsgLen): input that ends around every piece boundary
+    # (EOF inside a later piece is io.ErrUnexpectedEOF; the capacity depends on what has arrived)
+    for chunk, mlen in ((65536, 20000), (5000, 12000), (8192, 8192), (10000, 30000), (0xFFFFFFFF, 70000), (4097, 4097)):
+        head = pub_prefix().bytes() + E.message(2, E.T_SET_CHUNK, 0, E.set_chunk_size_body(chunk))
+        body = E.message(7, E.T_VIDEO, 1, b"\x27\x01" + bytes(mlen - 2), chunk=chunk if chunk < 0x80000000 else mlen)
+        cuts = set()
+        for b in (0, 1, 4095, 4096, 4097, 8191, 8192, 8193, 12287, 12288, 12289, 16383, 16384, 16385, 24576, 32768, 32769, 65536, mlen - 1, mlen):
+            cuts.add(12 + b)
+        for b in (5000, 5001, 10000, 10001, 10002, 12000, 20000):
+            cuts.add(12 + b)
+            cuts.add(13 + b)
+        for cut in sorted(x for x in cuts if 0 < x <= len(body)):
+            yield Case(line(data_tok(head) + "+" + data_tok(body[:cut])), cls="pieces")
+        # the same length as an aggregate (its buffer is kept after completion), complete and cut
+        agg = E.aggregate_body([(E.T_VIDEO, 0, b"\x27\x01" + bytes(mlen - 2))])
+        abody = E.message(4, E.T_AGG, 1, agg, chunk=chunk if chunk < 0x80000000 else len(agg))
+        for cut in (len(abody), len(abody) - 1, 12 + 4096, 12 + 8192, 12 + 8193):
+            if 0 < cut <= len(abody):
+                yield Case(line(data_tok(head) + "+" + data_tok(abody[:cut]) + ("+" + data_tok(ping) if cut == len(abody) else "")), cls="pieces")
+    # a header that shrinks / keeps / grows the length of a message in progress, at several fill levels
+    for have in (1, 100, 4096, 4097, 9000):
+        for newlen in (0, have - 1, have, have + 1, have + 5000):
+            if newlen < 0:
+                continue
+            head = pub_prefix().bytes() + E.message(2, E.T_SET_CHUNK, 0, E.set_chunk_size_body(have))
+            first = E.chunk_header(0, 7, 0, have + 10000, E.T_VIDEO, 1) + bytes(have)
+            nxt = E.chunk_header(1, 7, 0, newlen, E.T_VIDEO, 1) + bytes(min(have, 200))
+            yield Case(line(data_tok(head) + "+" + data_tok(first + nxt)), cls="pieces")
     # message length 2^24-1 declared on many chunk streams, never completed
     many = b"".join(E.chunk_header(0, 64 + i, 0, 0xFFFFFF, E.T_VIDEO, 1) + rb(128) for i in range(40 if not thorough else 400))
     yield Case(line(pre_tok["pub"] + "+" + data_tok(many)), cls="big-decl")
@@ -292,10 +324,42 @@ def gen_cases(tier, rng):
         tok += "+" + data_tok(E.chunk_header(0, 7, 40 * i, 900002, E.T_VIDEO, 1) + b"\x27\x01") + "+r900000.%d" % i
     tok += "+" + data_tok(ping)
     yield Case(line(tok), cls="ack")
+    yield Case(line(tok, "A@0x0:0x%x" % (0xF0000000 - 2600000)), cls="ack")
     c = client().add("winack", 2, E.T_WINACK, 0, struct.pack(">I", 0)).connect()
     yield Case(line(c.bytes()), cls="ack")
     c = client().add("winack", 2, E.T_WINACK, 0, struct.pack(">I", 0xFFFFFFFF)).connect()
     yield Case(line(c.bytes()), cls="ack")
+
+    # acknowledgement bookkeeping preset (hook): the first message after Window Acknowledgement Size sees
+    # delta = ReadBytesSum - recvLastAck (uint32) and seqNum + delta around ackSeqMax = 0xf0000000 and around 2^32
+    wa = msg(2, E.T_WINACK, 0, struct.pack(">I", 1000))
+    trigger = msg(3, 0, 0, b"")                      # any message: the acknowledgement check comes before the dispatch
+    pre_b = client().bytes() + wa + trigger
+    consumed = len(pre_b)
+    for d in (2499999, 2500000, 2500001, 3000000, 0xFFFFFFFF, 0x100000000 + 2500000):
+        lastack = (consumed - d) % (1 << 64)
+        delta = d & 0xFFFFFFFF
+        seqs = {0, 1, 0xF0000000, 0xF0000001, 0xFFFFFFFF, (0xF0000000 - delta) % (1 << 32), (0xF0000001 - delta) % (1 << 32),
+                (0xEFFFFFFF - delta) % (1 << 32), (0x100000000 - delta) % (1 << 32), (0xFFFFFFFF - delta) % (1 << 32)}
+        for sq in sorted(seqs):
+            yield Case(line(data_tok(pre_b + ping), "A@0x%x:0x%x" % (lastack, sq)), cls="ack-wrap")
+
+    # ---- trace logging: RunLoop runs the payload helpers on every completed message -------------------------
+    firsts = [0x17, 0x1c, 0x27, 0x2c, 0x90, 0x91, 0x80, 0xaf, 0xa0, 0x2f, 0x00, 0xff]
+    for st in ("fresh", "pub"):
+        for ty in (E.T_AUDIO, E.T_VIDEO):
+            for n in range(7):
+                for b0 in firsts:
+                    if n == 0 and b0 != firsts[0]:
+                        continue
+                    body = (bytes([b0]) + b"hvc1\x00\x01")[:n] if b0 & 0x80 and ty == E.T_VIDEO else (bytes([b0]) + bytes(6))[:n]
+                    yield Case(line(pre_tok[st] + "+" + data_tok(msg(6 if ty == E.T_AUDIO else 7, ty, 1, body)), "At"), cls="trace")
+        subs_t = [(E.T_VIDEO, 0, b""), (E.T_AUDIO, 0, b"\xaf"), (E.T_VIDEO, 0, b"\x17")]
+        yield Case(line(pre_tok[st] + "+" + data_tok(msg(4, E.T_AGG, 1, E.aggregate_body(subs_t))), "At"), cls="trace")
+    c = pub_prefix().metadata().audio(b"\xaf\x00\x12\x10").video(b"\x17\x00\x00\x00\x00" + rb(40)).video(b"")
+    yield Case(line(c.bytes(), "At"), cls="trace", meta=dict(expect=("eof", "conn,newpub:a,av*4,delpub")))
+    for cut in range(3074, len(full), 7):
+        yield Case(line(data_tok(full[:3073]) + "+" + data_tok(full[3073:cut]), "At"), cls="trace")
 
     # ---- handshake -----------------------------------------------------------------------------------------
     for v0 in (0, 1, 3, 6, 255):
@@ -350,6 +414,16 @@ def gen_cases(tier, rng):
 
 
 # --------------------------------------------------------------------------
+def tok_len(tok):
+    """length of a bytes token without expanding it"""
+    n = 0
+    for t in tok.split("+"):
+        if t in ("-", ""):
+            continue
+        n += int(t[1:].split(".")[0]) if t[0] == "r" else len(t) // 2
+    return n
+
+
 def _field(out, key):
     m = re.search(r"(?:^| )%s=(\S+)" % key, out)
     return m.group(1) if m else None
@@ -373,12 +447,19 @@ def oracle(c, out):
     if out.startswith("const-mismatch"):
         return (False, "generator and lal disagree on the version constants: " + out)
     toks0 = c.line.split(" ")
-    if len(toks0) > 1 and toks0[1] == "N":
+    if len(toks0) > 1 and toks0[1].startswith("N"):
         # an observer that accepts a publisher without installing the media observer breaks the contract of
         # OnNewRtmpPubSession (theorem hypothesis e_install); only model == implementation is checked
         return None
     if _crashed(out):
         return (False, "server terminated by peer bytes: " + out.split(" ")[0])
+    memf = _field(out, "mem")
+    if memf:
+        reserved, streams = (int(x, 16) for x in memf.split(":"))
+        sent = tok_len(c.line.split(" ")[3])
+        if reserved > 3 * sent + 8192 * streams or streams > max(sent, 0):
+            return (False, "message buffers hold %d bytes on %d chunk streams for %d bytes received (bound 3*received + 8192*streams)"
+                    % (reserved, streams, sent))
     sh = _field(out, "sh") or "-"
     kinds = [k for k in sh.split(",") if k != "-"]
     news = [k for k in kinds if k.startswith("new")]
@@ -393,6 +474,8 @@ def oracle(c, out):
         return (False, "accepted session never reported as ended: " + sh)
     if news and news[0].endswith(":r") and dels:
         return (False, "refused session reported as ended: " + sh)
+    if news and "conn" in kinds[kinds.index(news[0]):]:
+        return (False, "connect notification for a session that already has a role: " + sh)
     if any(k.startswith("av") for k in kinds) and "newpub:a" not in kinds:
         return (False, "media delivered without a publish: " + sh)
     data = None
@@ -410,10 +493,6 @@ def oracle(c, out):
 
 
 def classify_finding(c, out):
-    """F-C04-5 (open, resource): the process ran out of memory on a case that declares huge message lengths"""
-    first = out.split(" ")[0]
-    if first.startswith("crash@") and first.endswith(":oom"):
-        return "F-C04-5"
     return None
 
 
@@ -438,47 +517,60 @@ def neighbors(c, rng):
 
 
 # --------------------------------------------------------------------------
-def _rss_probe(ctx, notes):
-    """peak RSS of a fresh lalprobe process on the worst memory case the generator knows: one connection that declares a
-    16 MiB message on n chunk stream ids (139 bytes each) and then stays open"""
-    body = bytes(128)
-    for n in (1, 64, 512):
-        many = b"".join(E.chunk_header(0, 64 + i, 0, 0xFFFFFF, E.T_VIDEO, 1) + body for i in range(n))
-        l = line(data_tok(pub_prefix().bytes()) + "+" + data_tok(many))
-        t0 = time.time()
-        p = subprocess.Popen([ctx["probe"]], stdin=subprocess.PIPE, stdout=subprocess.PIPE, stderr=subprocess.DEVNULL)
-        p.stdin.write((l + "\n").encode())
-        p.stdin.close()
-        so = p.stdout.read()
-        _, _, ru = os.wait4(p.pid, 0)
-        notes.append("memory (measured, not modelled): one connection declaring a 16 MiB message on %d chunk stream ids (%d bytes sent "
-                     "after publish): outcome %s, peak RSS of the process %.0f MiB (the session is run twice per case), %.1f s"
-                     % (n, len(many), so.decode().split(" ")[0], ru.ru_maxrss / 1024.0, time.time() - t0))
-
-
 def _rss_of(exe, lines):
-    p = subprocess.Popen([exe], stdin=subprocess.PIPE, stdout=subprocess.PIPE, stderr=subprocess.DEVNULL)
+    """peak RSS (MiB) of one fresh lalprobe process that runs `lines`, as the process itself reads it from
+    /proc/self/status (ru_maxrss of a forked child starts at the RSS of the python parent)"""
     import threading
+    p = subprocess.Popen([exe], stdin=subprocess.PIPE, stdout=subprocess.PIPE, stderr=subprocess.DEVNULL)
     out = []
     t = threading.Thread(target=lambda: out.append(p.stdout.read()))
     t.start()
-    p.stdin.write(("\n".join(lines) + "\n").encode())
+    p.stdin.write(("\n".join(list(lines) + ["c04.rss"]) + "\n").encode())
     p.stdin.close()
     t.join()
-    _, _, ru = os.wait4(p.pid, 0)
-    return ru.ru_maxrss / 1024.0, out[0].decode()
+    p.wait()
+    txt = out[0].decode()
+    last = [x for x in txt.split("\n") if x.startswith("rss ")]
+    return (int(last[-1].split()[1]) / 1024.0 if last else -1.0), txt
+
+
+def declared_case(n):
+    """one connection that declares a 16 MiB message on n chunk stream ids (a 12..14-byte header and 128 body bytes
+    each) and then stays open"""
+    many = b"".join(E.chunk_header(0, 64 + i, 0, 0xFFFFFF, E.T_VIDEO, 1) + bytes(128) for i in range(n))
+    return line(data_tok(pub_prefix().bytes()) + "+" + data_tok(many)), len(many)
+
+
+# peak RSS allowed for a lalprobe process that runs the declared-length cases (measured after the repair of
+# F-C04-5: 10..50 MiB, most of it the Go runtime and the harness; with the declared length reserved again on type-0 headers only: 206 MiB for 4096 ids, 379 MiB for the sequence; before the repair 5.4 GiB)
+RSS_LIMIT_MIB = 150
+
+
+def _rss_guard(ctx, cases, violations, notes):
+    base, _ = _rss_of(ctx["probe"], [])
+    rows = []
+    for n in (1, 64, 512, 4096):
+        l, sent = declared_case(n)
+        t0 = time.time()
+        rss, txt = _rss_of(ctx["probe"], [l])
+        rows.append((n, sent, rss, txt.split(" ")[0], _field(txt.split("\n")[0], "mem")))
+    mem = [c.line for c in cases if c.cls in ("big-decl", "chunk-size", "chunk-forms")]
+    t0 = time.time()
+    seq, _ = _rss_of(ctx["probe"], mem)
+    notes.append("memory (measured): idle lalprobe %.0f MiB; one connection declaring a 16 MiB message on n chunk stream ids: %s; "
+                 "one process running the %d declared-length cases in sequence (16 MiB declared on up to 400 ids, Set Chunk Size "
+                 "0xFFFFFFFF, shrinking headers; heap reuse included): %.0f MiB in %.1f s; limit %d MiB"
+                 % (base, "; ".join("n=%d (%d bytes sent): %.0f MiB, reserved:streams=%s" % (n, sent, rss, m) for n, sent, rss, _, m in rows),
+                    len(mem), seq, time.time() - t0, RSS_LIMIT_MIB))
+    worst = max([seq] + [r[2] for r in rows])
+    if worst > RSS_LIMIT_MIB:
+        path = vf.write_replay(ctx["prop"], dict(property=ctx["prop"], case=declared_case(512)[0], oracle=False,
+                                                why="peak RSS %.0f MiB on the declared-length cases exceeds %d MiB: memory is no longer "
+                                                    "proportional to the bytes received" % (worst, RSS_LIMIT_MIB)))
+        violations.append(("oracle", "memory regression: peak RSS %.0f MiB > %d MiB" % (worst, RSS_LIMIT_MIB), path, False))
 
 
 def run(ctx, cases, cov, violations, known_hits, notes):
     vf.generic_diff(__import__("gen.c04", fromlist=["x"]), ctx, cases, cov, violations, known_hits, notes)
     if ctx["tier"] == "thorough":
-        try:
-            _rss_probe(ctx, notes)
-            mem = [c.line for c in cases if c.cls in ("big-decl", "big", "chunk-size", "chunk-forms", "ack")]
-            t0 = time.time()
-            rss, _ = _rss_of(ctx["probe"], mem)
-            notes.append("memory (measured, not modelled): one lalprobe process running the %d memory-relevant generator cases in sequence "
-                         "(16 MiB declared on up to 400 chunk stream ids, Set Chunk Size 0xFFFFFFFF, one complete 16 MiB message, "
-                         "2.7 MB acknowledged stream; heap reuse between cases included): peak RSS %.0f MiB, %.1f s" % (len(mem), rss, time.time() - t0))
-        except Exception as e:
-            notes.append("memory probe failed: %r" % (e,))
+        _rss_guard(ctx, cases, violations, notes)
